@@ -419,6 +419,19 @@ impl<K: SimKey> World<K> {
             if g.len() != self.model.len() || g.is_empty() != self.model.is_empty() {
                 return Err(fail(&["C01"], "len", i, format!("len()={} is_empty()={} model len={}", g.len(), g.is_empty(), self.model.len())));
             }
+            // keys_snapshot(): a clone of the ordered map
+            let snap = g.keys_snapshot();
+            let snap_ok = snap.len() == self.model.len()
+                && snap.iter().zip(self.model.iter()).all(|((k1, it), (k2, &c))| k1 == k2 && it.blob_hash.0 == self.hashes[c] && it.blob_size == self.contents[c].len() as u64);
+            if !snap_ok {
+                return Err(fail(&["C01"], "keys-snapshot", i, format!("keys_snapshot() has {} entries and differs from the model ({} entries)", snap.len(), self.model.len())));
+            }
+            // full-range iteration through range(..) must equal iter()
+            let via_range: Vec<Vec<u8>> = g.range::<K, _>(..).map(|(k, _)| k.kb()).collect();
+            let via_iter: Vec<Vec<u8>> = g.iter().map(|(k, _)| k.kb()).collect();
+            if via_range != via_iter {
+                return Err(fail(&["C01"], "range-vs-iter", i, "range(..) and iter() enumerate different keys".into()));
+            }
             for k in &self.keys {
                 let want = self.model.get(k);
                 if g.contains_key(k) != want.is_some() {
